@@ -264,6 +264,14 @@ Definition prog_ok (x : option (list Qc)) (y : list Qc) (e : option exn) (steps 
         if name == "scale_y":
             return {"op": name, "v": rng.choice([0.5, 2.0, -1.0, -2.0, 3.0, 0.25])}
         if name in ("normalize_x", "normalize_y"):
+            v_ = x if name == "normalize_x" else np.asarray(w.y, dtype=float)
+            for arr_ in (v_, np.asarray(w.reference_x if name == "normalize_x" else w.reference_y, dtype=float),
+                         np.asarray(w.original_x if name == "normalize_x" else w.original_y, dtype=float)):
+                sp_ = float(np.max(arr_) - np.min(arr_)) if len(arr_) else 0.0
+                if sp_ > 0 and float(np.max(np.abs(arr_))) / sp_ > 2.0 ** 20 and not is_exact(arr_):
+                    # a tiny spread on a large offset that already carries rounding (e.g. 2.25 + 1e-9 after a shift): normalising
+                    # magnifies that rounding by offset / spread; the exact model and the floats then differ legitimately (DESIGN 3.6)
+                    return None
             lo = gens.dyadic(rng, -4, 4, 1)
             return {"op": name, "lo": lo, "hi": lo + rng.choice([1.0, 2.0, 8.0, 0.5, 10.0])}
         if name == "repeat":
@@ -291,6 +299,15 @@ Definition prog_ok (x : option (list Qc)) (y : list Qc) (e : option exn) (steps 
                     v = round(v * 64) / 64
                 return float(v)
             l, r = bound(i + 1, lr, "l"), bound(j, rr, "r")
+            # ratios refer to each series' own span: on a reshaped Weaver the same request may denote an empty / inverted range
+            # of the REFERENCE series (legitimately refused); such requests are not drawn as valid ones
+            rx_ = np.asarray(w.reference_x, dtype=float)
+            if len(rx_) >= 2:
+                rspan = rx_[-1] - rx_[0]
+                la = l * rspan + rx_[0] if lr else l
+                ra = r * rspan + rx_[0] if rr else r
+                if not (la + 1e-9 * (1 + abs(la)) < ra):
+                    return None
             return {"op": name, "l": l, "r": r, "lr": lr, "rr": rr}
         if name == "truncate_by_index":
             if n < 6:
